@@ -309,6 +309,17 @@ fn items_traced_defaults(tier: Tier, kind: Kind) -> Vec<Item> {
             ));
         }
     }
+    if kind == Kind::Free {
+        // a default expression is resolved where the function is declared, not among the function's own parameters: it names
+        // the GLOBAL `seed` although a parameter is called `seed` too; the omitting call is made from inside the function
+        let d = "fn seed(n: int) -> int = 100 + n\nfn small(n: int) -> int = 1 + n\nfn rec(depth: int, seed: int -> int, off: int = seed(0)) -> int {\n  if depth == 0 {\n    off\n  } else {\n    rec(depth - 1, small)\n  }\n}";
+        let mut case = Case::new(
+            "C18 free-fn default `seed(0)` names a global that a parameter of the same function shadows; omitted in a recursive call".to_string(),
+            "vh_emit_int(rec(1, small))\nvh_emit_int(rec(0, small))\nvh_emit_int(rec(0, small, 7))\nvh_emit_int(rec(2, seed))".to_string(),
+        );
+        case.decls = vec![d.to_string()];
+        v.push(Item { case, want: Want::Emits(vec![100, 100, 7, 100]), stratum: "valid-traced-defaults", nontrivial: true });
+    }
     v
 }
 
